@@ -129,6 +129,7 @@ class RunScenario:
         self.argmap_dir = {}   # target -> repo-relative dir
         self.argmap_files = {}  # target -> {name: {cmd: [args]}}
         dir_files = {}         # commands directory -> {cmd: filename or None}; may be shared by targets
+        dir_decoys = {}        # commands directory -> [file names that define no command]
         for t in self.targets:
             p = t["path"]
             lay = {"custom_dir": None, "defs": {}, "files": {}}
@@ -137,12 +138,18 @@ class RunScenario:
                 t.setdefault("commands", {})["path"] = lay["custom_dir"]
             dkey = lay["custom_dir"] or (p + "/monorail/cmd")
             files = dir_files.setdefault(dkey, {})
+            decoys = dir_decoys.setdefault(dkey, [])
+            lay["decoys"] = decoys
             for c in self.all_commands:
                 if c not in files:
                     if rng.below(100) < undefined_pct:
                         files[c] = None              # undefined
                     else:
                         files[c] = c + (rng.pick(["", ".sh", ".py"]) if rng.chance(1, 2) else "")
+                    if rng.chance(1, 4):
+                        # executable files whose stem is NOT the command: leftovers of an editor, a
+                        # merge or a rename, and prefix-sharing names; none of them defines `c`
+                        decoys.append(c + rng.pick([".sh.disabled", ".sh.orig", ".py.rej", "2.sh", "_old.sh", ".bak.sh", "-ci"]))
                 lay["files"][c] = files[c]
                 if custom_dirs and rng.chance(1, 6 if lay["custom_dir"] == "tools/shared" else 10):
                     if rng.chance(1, 3):
@@ -230,6 +237,11 @@ class RunScenario:
                         os.remove(d)
                     os.link(scen.HELPER, d)
                 self.expected_exe[(c, p)] = exe
+            for name in lay.get("decoys", []):
+                dst = os.path.join(cdir, name)
+                if not os.path.lexists(dst):
+                    os.makedirs(cdir, exist_ok=True)
+                    os.link(scen.HELPER, dst)
             am = os.path.join(repo.dir, self.argmap_dir[p])
             for name, content in self.argmap_files[p].items():
                 os.makedirs(am, exist_ok=True)
@@ -261,4 +273,5 @@ class RunScenario:
         return {"targets": self.targets, "commands": self.commands, "sequences": self.sequences, "use_sequences": self.use_sequences,
                 "named": self.named, "deps": self.deps, "use_base": self.use_base, "argmaps": self.argmaps, "args": self.args,
                 "fail_on_undefined": self.fail_on_undefined, "argmap_files": self.argmap_files,
-                "layout": {k: {"custom_dir": v["custom_dir"], "defs": v["defs"], "files": v["files"]} for k, v in self.cmd_layout.items()}}
+                "layout": {k: {"custom_dir": v["custom_dir"], "defs": v["defs"], "files": v["files"], "decoys": v.get("decoys", [])}
+                           for k, v in self.cmd_layout.items()}}
